@@ -72,7 +72,7 @@ SPELLINGS = [
     lambda v: f"0x{v:08x}",
 ]
 ORIGINS = [0x018000, 0x828123]
-REGISTER_LIKE_NAMES = ["a", "A", "x", "Y", "s", "b", "l"]
+REGISTER_LIKE_NAMES = ["a", "A", "x", "Y", "s", "b", "l", "_zp", "_", "__t1"]
 UNJUDGED_PLAIN = set(isa.BRANCHES) | {"brl", "per"}
 
 
